@@ -21,7 +21,7 @@ NOTE = ("Trusted: the gocv translator (SSA->SMT, memory model, panic edges), the
 
 CLAIMS = {
  "C01": "Unbounded proofs of the leaf predicates the script verdict is assembled from, each against a closed-form spec written from the BIP text: GetOpcode (exact opcode / push bytes / length for all four push encodings, progress >= 1), IsPushOnly and the sig-op scanners (termination, index safety), IsP2SH, IsWitnessProgram (BIP141), DecodeOP_N, IsValidSignatureEncoding (= the nine BIP66 rules, no index out of range for any byte string), IsDefinedHashtypeSignature, pubkey-encoding predicates and their flag logic, checkMinimalPush (BIP62), CheckSequence (BIP112). Equality of the composed verdict of evalScript with consensus is NOT decided.",
- "C03": "Unbounded proofs of the acceptance preconditions of the verifiers, for every byte string: ecdsa_verify returns 1 only if both DER integers lie in [1, n-1]; Signature.ParseBytes is total (no index out of range) and on success R and S are exactly the big-endian values of the two INTEGER bodies; XY.ParsePubkey / ParseXOnlyPubkey accept only coordinates below p and return IsValid() of the resulting point (on-curve predicate uninterpreted, IsValid and SetXO assumed); SchnorrVerify returns true only if len(sig)=64, r < p, s < n and the key is a valid x coordinate. The verification equations over the group (Signature.Verify, ECmult), signing, low-S/DER canonicity of own signatures and equality with reference outputs are NOT decided (assumed contracts listed in the evidence).",
+ "C03": "Unbounded proofs of the acceptance preconditions of the verifiers, for every byte string: ecdsa_verify returns 1 only if both DER integers lie in [1, n-1]; Signature.ParseBytes is total (no index out of range) and on success R and S are exactly the big-endian values of the two INTEGER bodies; XY.ParsePubkey / ParseXOnlyPubkey accept only coordinates below p and return IsValid() of the resulting point (on-curve predicate uninterpreted, IsValid and SetXO assumed); SchnorrVerify returns true only if len(sig)=64, r < p, s < n and the key is a valid x coordinate; Signature.Bytes (the library's own serialisation) is strict DER for every 0 < R,S < 2^256: two INTEGERs, each minimal and non-negative, all length bytes consistent (math/big.Int.Bytes modelled as the minimal big-endian magnitude). The verification equations over the group (Signature.Verify, ECmult), signing, low-S of own signatures and equality with reference outputs are NOT decided (assumed contracts listed in the evidence).",
  "C04": "Unbounded proofs: CheckTransaction returns nil only if inputs and outputs are non-empty, 4*NoWitSize <= 4e6, a coinbase script is 2..100 bytes, no non-coinbase input is null, every output value <= MAX_MONEY and the mathematical sum of outputs <= MAX_MONEY (recursive spec sum, no wrap); IsCoinBase/IsNull/allzeros exact; GetBlockReward = floor(50e8 / 2^floor(h/210000)), 0 from 33 halvings on; sig-op scanners terminate and stay in bounds. Input-side sums, maturity, UTXO existence and atomicity inside commitTxs are NOT decided.",
  "C05": "Unbounded proofs of context-free pieces: Tx.IsFinal equals Bitcoin's IsFinalTx; Tx.Weight = 3*stripped+total and Tx.VSize = ceil(weight/4) (BIP141); UintToScript(n) is the minimal script-number push of n (OP_0, OP_1..16, or the shortest positive little-endian encoding) as BIP34 requires. The compact-target codec, proof-of-work comparison, retargeting, median time, merkle/mutation and the orchestration in PreCheckBlock/PostCheckBlock are NOT decided yet.",
  "C08": "Limb layer of the 5x52 field, proved for all limb values within the stated magnitudes, in exact integer arithmetic: Field.Mul and Field.Sqr (inputs of magnitude <= 8): no 64-bit or 128-bit intermediate overflows - every discarded bits.Add64 carry is zero -, the result has magnitude 1 and value(r) = value(a)*value(b) (mod p), with r allowed to alias a and b; Normalize (magnitude <= 32): canonical output < p, congruent to the input; Negate, SetAdd, MulInt: no limb over/underflow, exact value equations, magnitude bookkeeping; SetInt, IsZero, IsOdd, Equals. The congruences are discharged by a mod-witness tactic whose output (quotient polynomial K and remainder Rest) is checked by the solver, not trusted. NOT decided yet: SetB32/GetB32, Inv/Sqrt chains, the Jacobian group formulas, the precomputed tables, ECmult/ECmultGen; the 10x26 representation is not compiled on this platform.",
@@ -33,7 +33,7 @@ CLAIMS_EXTRA = {
  "C14": "Unbounded proofs: the BIP32 version-byte tables (IsPublic/IsPrivate/IsTestnetHDPrefix, PublishHDPrefix, HDKeyPrefix) are exact and mutually consistent (publishing a private version yields the public version of the same network and script type); ByteCheck accepts only 82 bytes with a known version (and, for public versions, a valid point); StringWallet is total on every string and an accepted key has a 32-byte chain code and a 33-byte key; DeriveNextPrivate is total and always returns 32 bytes; HDWallet.Child on a well-formed wallet (33-byte key, 32-byte chain code, known version, no hardened derivation from a public key) does not panic and the child carries the parent's version, depth+1, the index and a 32-byte chain code; ShaHash/RimpHash write only their output. The child-key algebra (public = private consistency), HMAC input layout, Base58, BIP39 and end-to-end determinism of the wallet binary are NOT decided; PublicFromPrivate/DeriveNextPublic/Decodeb58 are assumed frames.",
  "C02": "Unbounded proofs of the decision logic of the taproot signature hash: TaprootSigHash yields no digest (nil) for a hash type outside {0,1,2,3,0x81,0x82,0x83} and for SIGHASH_SINGLE without a matching output, otherwise a 32-byte digest; its hashLock is released on every return; CheckSchnorrSignature accepts only 64-byte signatures or 65-byte ones with an explicit, non-default, defined hash type and fails when there is no digest; IsDefinedHashtypeSignature exact; WriteVlen appends exactly the canonical CompactSize bytes to the hasher (ghost byte buffer). Index/nil safety inside the cache-filling loops, the byte layout of the three preimages, the legacy and BIP143 algorithms, cache coherence and concurrent fills are NOT decided yet (hash functions are uninterpreted).",
  "C18": "Unbounded proofs, for every payload, of the message handlers HandleVersion, AuthRvcd (xauth), ParseAddr, ProcessInv, ProcessGetData/processGetData, HandleHeaders, GetHeaders' and GetBlocks' parser parseLocatorsPayload, ProcessGetBlockTxn, ProcessBlockTxn, ProcessCmpctBlock, ParseTxNet, ProcessGetMP, HandlePong, of the connection helpers they call (DoS, Disconnect, Misbehave, InvStore, MutexSetBool, ...) and of the library entry points behind them (VLen/VULe, ReadVLen, NewTx, TxSize, NewBlock/UpdateContent, SetHash, Serialize, WriteSerialized, GetOpcode and the script scanners, peersdb.NewPeer): no index/slice/conversion panic, every mutex taken is released on every return (also in deferred calls), every payload-driven loop has a variant bounded by the unread payload (ghost count of a reader) or a checked counter, containers sized from peer counts are bounded by the payload (allocbound). Handlers marked nonilcheck (ProcessCmpctBlock, ProcessBlockTxn, ProcessGetMP) do not check nil dereferences of node-internal structures; shape facts about the global maps and the chain/mempool layers are assumed (mapval/global/assumed contracts, listed in the evidence); ProcessNewHeader is an assumed contract. NOT decided: netBlockReceived, GetHeaders, GetBlocks bodies, the dispatch loop and FetchMessage limits, evalScript's recover path, message order/handshake state, and anything concurrent.",
- "C15": "Unbounded proofs: bech32_polymod_step equals BIP173's step function with BIP173's five generator constants (structure and every constant pinned, xor uninterpreted); the two final constants are 1 and 0x2bc830a3; bech32.Decode is total on every string (no index out of range, loops bounded by the input) and accepts only the BIP173 shape (8..90 characters, non-empty hrp, separator, data symbols < 32, six checksum symbols). The checksum algebra (decode after encode, error detection), bit regrouping, segwit address rules and Base58 are NOT decided yet.",
+ "C15": "Unbounded proofs: bech32_polymod_step equals BIP173's step function with BIP173's five generator constants (structure and every constant pinned, xor uninterpreted); the two final constants are 1 and 0x2bc830a3; bech32.Decode is total on every string (no index out of range, loops bounded by the input), accepts only the BIP173 shape (8..90 characters, non-empty hrp, separator, data symbols < 32, six checksum symbols) and refuses every string that mixes lower-case and upper-case letters; convert_bits (5->8 and 8->5) leaves (n*inbits) mod outbits bits, produces exactly floor(n*inbits/outbits) groups (+1 when padding) and, when decoding, refuses an input that leaves a whole group of padding; SegwitDecode accepts only versions 0..16 with a program of 2..40 bytes (20 or 32 for version 0) whose length is exactly what the address length implies, and returns (0, nil, error) otherwise. The checksum algebra (decode after encode, error detection), zero-padding bits, SegwitEncode, BtcAddr and Base58 are NOT decided yet.",
 }
 ORDER = ["C01", "C02", "C03", "C04", "C05", "C08", "C09", "C10", "C13", "C14", "C15", "C18"]
 
